@@ -18,7 +18,7 @@ import (
 //verif:include zz_verif_model.go
 //verif:harness H15_add property=C15 native=no quick=l0=1,l1=0,maxv=1;l0=2,l1=1,maxv=1 thorough=l0=2,l1=2,maxv=2;l0=3,l1=1,maxv=1
 //verif:harness H15_del property=C15 native=no quick=l0=1,l1=0,maxv=1;l0=2,l1=1,maxv=1;l0=3,l1=0,maxv=1 thorough=l0=3,l1=1,maxv=2;l0=4,l1=0,maxv=1
-//verif:harness H15_batch property=C15 native=no quick=l0=1,l1=1,maxv=1,a=1,d=1;l0=1,l1=0,maxv=1,a=2,d=1;l0=2,l1=0,maxv=0,a=1,d=2;l0=1,l1=1,maxv=0,a=0,d=3;l0=1,l1=1,maxv=0,a=3,d=0 thorough=l0=2,l1=1,maxv=1,a=2,d=2;l0=2,l1=0,maxv=1,a=3,d=1;l0=3,l1=0,maxv=1,a=1,d=3;l0=1,l1=1,maxv=2,a=2,d=2;l0=2,l1=1,maxv=1,a=0,d=3
+//verif:harness H15_batch property=C15 native=no quick=l0=1,l1=1,maxv=1,a=1,d=1;l0=1,l1=0,maxv=1,a=2,d=1;l0=2,l1=0,maxv=0,a=1,d=2;l0=1,l1=1,maxv=0,a=0,d=3;l0=1,l1=1,maxv=0,a=3,d=0 thorough=l0=2,l1=0,maxv=1,a=2,d=1;l0=1,l1=1,maxv=1,a=1,d=2;l0=2,l1=1,maxv=0,a=0,d=3
 
 type verifList struct {
 	key  []byte
